@@ -129,6 +129,12 @@ class DataFlow:
                     self._add((al.asname or al.name).split(".")[0], n, "import", None, (), st)
             elif isinstance(st, (ast.FunctionDef, ast.AsyncFunctionDef, ast.ClassDef)):
                 self._add(st.name, n, "def", None, (), st)
+            elif isinstance(st, ast.Expr) and isinstance(st.value, ast.Call) and isinstance(st.value.func, ast.Attribute) \
+                    and isinstance(st.value.func.value, ast.Name) and st.value.func.attr in ("append", "extend", "insert", "add"):
+                # list growth: a weak update whose value is the element appended
+                c = st.value
+                if c.args:
+                    self._add(c.func.value.id, n, "append", c.args[-1], (), st)
             # walrus
             for sub in self.node_exprs(n):
                 for w in ast.walk(sub):
@@ -161,7 +167,7 @@ class DataFlow:
         for n in self.cfg.nodes:
             g, k = set(), set()
             for d in self.node_defs.get(n.id, []):
-                if d.kind == "mutate":
+                if d.kind in ("mutate", "append"):
                     g.add(d.idx)          # weak update: does not kill
                 else:
                     k |= kills[d.name]
@@ -189,7 +195,7 @@ class DataFlow:
         return [self.defs[i] for i in sorted(s) if self.defs[i].name == name]
 
     def strong_defs(self, node, name, after=False):
-        return [d for d in self.reaching(node, name, after) if d.kind != "mutate"]
+        return [d for d in self.reaching(node, name, after) if d.kind not in ("mutate", "append")]
 
     def single_def(self, node, name, after=False):
         ds = self.strong_defs(node, name, after)
@@ -288,7 +294,7 @@ class DataFlow:
         return t.visit(copy.deepcopy(expr))
 
     def reaching_mutations(self, at, name):
-        return [d for d in self.reaching(at, name) if d.kind == "mutate"]
+        return [d for d in self.reaching(at, name) if d.kind in ("mutate", "append")]
 
     def roots(self, expr, at, depth=8, _seen=None):
         """may-provenance of expr evaluated at CFG node `at`:
@@ -321,7 +327,7 @@ class DataFlow:
                         out.add(("for", d.name, norm(d.value), d.slot))
                         if depth > 0:
                             out.update(self.roots(d.value, d.node, depth - 1, seen))
-                    elif d.kind in ("assign", "aug", "mutate", "with"):
+                    elif d.kind in ("assign", "aug", "mutate", "with", "append"):
                         if depth > 0:
                             out.update(self.roots(d.value, d.node, depth - 1, seen))
                         if d.kind == "aug":
